@@ -228,7 +228,9 @@ func Keyed(key string) *Spec {
 	return s
 }
 
-func plain() *Spec { return fixed("int:1", func(k string) zapcore.Field { return zap.Int(k, 1) }, I64(1)) }
+func plain() *Spec {
+	return fixed("int:1", func(k string) zapcore.Field { return zap.Int(k, 1) }, I64(1))
+}
 
 // Placement is a complete input for one encode: With segments + call-site fields.
 type Placement struct {
